@@ -8,6 +8,7 @@ pub fn generate(kind: &str, r: &mut Rng, i: u64) -> Vec<String> {
         "smoke" => smoke(r, i),
         "link-exact" => link_exact(r, i),
         "link-burst" => link_burst(r, i),
+        "link-close" => link_close(r, i),
         "hostile" => hostile(r, i),
         "wirepeer" => wirepeer(r, i),
         "conn" => conn(r, i, false),
@@ -849,6 +850,117 @@ fn wirepeer(r: &mut Rng, _i: u64) -> Vec<String> {
             }
         }
     }
+    l.push("dropall".into());
+    l.push("settle".into());
+    l.push("end".into());
+    l
+}
+
+/// C11 at port level (exact mode): a stream of messages with a close / receiver drop / sender drop
+/// at a random position (also inside a chunked message), followed by further sends, the receiver
+/// draining until end-of-stream or until nothing is left.
+fn link_close(r: &mut Rng, _i: u64) -> Vec<String> {
+    let c = gen_cfg(r);
+    let s = r.below(2) as usize;
+    let (sn, rn) = if s == 0 { ("A", "B") } else { ("B", "A") };
+    let (chunk, buf, maxdata) = (c.chunk[1 - s], c.buf[1 - s], c.maxdata[1 - s]);
+    let mut l = vec!["mode exact".to_string()];
+    l.extend(cfg_lines(&c));
+    l.push("start".into());
+    l.push(format!("connect c0 {sn} p"));
+    l.push(format!("accept a0 {rn} p"));
+    l.push("settle".into());
+    l.push(format!("release {rn} 0"));
+    let n = r.range(2, 7);
+    let at = r.below(n + 1);
+    let kind = r.below(4); // 0 close, 1 drop receiver, 2 drop sender, 3 close then drop receiver
+    let mut k = 0;
+    let mut recvs = 0;
+    let mut sender_dropped = false;
+    let mut receiver_dropped = false;
+    for i in 0..n {
+        if i == at {
+            // the receive handle must be idle for close/drop to take effect at this point
+            if recvs > 0 {
+                l.push(format!("cancelcalls {rn} p rx"));
+                l.push("settle".into());
+            }
+            match kind {
+                0 => l.push(format!("close cl {rn} p")),
+                1 => {
+                    l.push(format!("drop {rn} p rx"));
+                    receiver_dropped = true;
+                }
+                2 => {
+                    l.push(format!("drop {sn} p tx"));
+                    sender_dropped = true;
+                }
+                _ => {
+                    l.push(format!("close cl {rn} p"));
+                    l.push("settle".into());
+                    l.push(format!("flushstep {rn}"));
+                    l.push(format!("drop {rn} p rx"));
+                    receiver_dropped = true;
+                }
+            }
+            l.push("settle".into());
+            // sometimes the sender learns of it only later: the notification is delivered by flushstep
+            if r.bool() {
+                l.push(format!("flushstep {rn}"));
+            }
+            if r.chance(1, 3) && !sender_dropped {
+                k += 1;
+                l.push(format!("isclosed q{k} {sn} p"));
+                l.push("settle".into());
+            }
+        }
+        if sender_dropped {
+            break;
+        }
+        k += 1;
+        match r.below(4) {
+            0 | 1 => {
+                let len = msg_len(r, chunk, buf, maxdata).min(3 * buf as usize);
+                l.push(format!("send s{k} {sn} p {}", payload(r, len)));
+            }
+            2 => {
+                let parts = r.range(1, 3);
+                let ps: Vec<String> = (0..parts).map(|_| { let n = msg_len(r, chunk, buf, maxdata).min(30); payload(r, n) }).collect();
+                l.push(format!("chunks s{k} {sn} p {} end={}", ps.join(","), *r.pick(&["finish", "final"])));
+            }
+            _ => {
+                let len = msg_len(r, chunk, buf, maxdata).min(buf as usize);
+                l.push(format!("trysend s{k} {sn} p {}", payload(r, len)));
+            }
+        }
+        l.push("settle".into());
+        l.push(format!("flushstep {rn}"));
+        // the receiver consumes now and then
+        if !receiver_dropped && r.chance(2, 3) {
+            recvs += 1;
+            l.push(format!("recvmsg r{recvs} {rn} p"));
+            l.push("settle".into());
+            l.push(format!("flushstep {rn}"));
+        }
+        // a send that is still waiting for credits is cancelled to keep one call per handle
+        l.push(format!("cancel s{k}"));
+        l.push("settle".into());
+    }
+    if !sender_dropped && r.bool() {
+        l.push(format!("drop {sn} p tx"));
+        l.push("settle".into());
+    }
+    if !receiver_dropped {
+        for _ in 0..(n + 3) {
+            recvs += 1;
+            l.push(format!("recvmsg r{recvs} {rn} p"));
+            l.push("settle".into());
+            l.push(format!("flushstep {rn}"));
+        }
+        l.push("settle".into());
+        l.push("expect-drained".into());
+    }
+    l.push(format!("release {rn} inf"));
     l.push("dropall".into());
     l.push("settle".into());
     l.push("end".into());
